@@ -174,6 +174,9 @@ def run_unit(unit, defines=None, vacuity=False, rlimit=None, seed=None, tag='mai
         if kind is None or lvl == 'raw':
             if RLIMIT_RE.search(msg):
                 res['tool_errors'].append('rlimit: ' + msg)
+                for s_ in spans:
+                    if s_['line'] and fn_at(s_['line']):
+                        res.setdefault('rlimit_fns', []).append(fn_at(s_['line']))
             else:
                 res['tool_errors'].append(msg + ''.join('\n    at %s:%s %s' % (fname, s['line'], s['text']) for s in spans[:2]))
             continue
